@@ -237,6 +237,18 @@ def run(ctx):
         if s_['k'] == 'assign' and any(p_.startswith('.ArxmlFileRaw.') or p_.startswith('.ElementRaw.') or p_.startswith('.AutosarModelRaw.') for p_ in s_['dst'].get('p', [])):
             dn, dc_, df = deep_sources(du, {'l': s_['dst']['l'], 'p': []}, depth=14)
             C.check('self' not in dn, 'C13-MUST-duplicate', 'no-store-into-the-original|%s' % [p_ for p_ in s_['dst']['p'] if p_.startswith('.')][-1], 'duplicate() stores into an object reached from the original model (self): the source of a duplication must stay unchanged', du.where(pos))
+    # the root element itself is not copied by create_copied_sub_element: its own comment and attributes are transferred
+    for fld in ('comment', 'attributes'):
+        okr = False
+        for pos, t in du.iter_calls():
+            if call_matches(t, r'Clone>::clone_from$|Clone>::clone$|ToOwned>::clone_into$'):
+                srcs = [deep_sources(du, a, depth=14) for a in t['args'] if is_local_op(a)]
+                flds = set().union(*[x[2] for x in srcs]) if srcs else set()
+                cs_ = set().union(*[x[1] for x in srcs]) if srcs else set()
+                if ('ElementRaw.' + fld) in flds and any(c.endswith('AutosarModel>::root_element') for c in cs_):
+                    okr = True
+        C.check(okr, 'C13-MUST-duplicate', 'root-%s-transferred' % fld, 'duplicate() does not transfer the %s of the root element itself (only its sub elements are copied): the duplicate serializes to a different text' % fld,
+                '%s:%d' % (du.file, du.line), sample={'fn': 'duplicate', 'root_field': fld})
     # membership rebuilt from the new model's file handles only
     ins = []
     for pos, t in du.iter_calls():
